@@ -5,7 +5,6 @@ import (
 	"cmp"
 	"fmt"
 	"math"
-	"slices"
 	"sort"
 	"strings"
 
@@ -27,7 +26,10 @@ type Dom[T comparable] struct {
 	Probe []T // values not in Alpha (between neighbours, below min, above max)
 	Wide  func(r *core.R) T
 	Cmps  []NamedCmp[T] // [0] natural, [1] reversed, [2] coarsened (many-to-one), [3] natural with un-normalised results
-	Fmt   func(T) string
+	// Builtin, for ordered types, constructs the named container with the
+	// package's New (no comparator argument); its order must be Cmps[0].
+	Builtin func(kind string, order int) any
+	Fmt     func(T) string
 }
 
 // magnitude gives un-normalised comparators result sizes from all ranges a
@@ -51,6 +53,23 @@ func magnitude(x uint64) int {
 	}
 }
 
+// scale turns a normalised comparator result into an un-normalised one of the
+// same sign: usually c times a magnitude, and sometimes the extreme results
+// math.MinInt / math.MaxInt (what a saturating or hash-derived comparator
+// returns; -math.MinInt is not representable).
+func scale(c int, x uint64) int {
+	if c == 0 {
+		return 0
+	}
+	if x%11 == 10 {
+		if c < 0 {
+			return math.MinInt
+		}
+		return math.MaxInt
+	}
+	return c * magnitude(x)
+}
+
 func floorDiv(a, b int) int {
 	q := a / b
 	if (a%b != 0) && ((a < 0) != (b < 0)) {
@@ -65,20 +84,20 @@ var intCmps = []NamedCmp[int]{
 	{"coarse12", func(a, b int) int { return cmp.Compare(floorDiv(a, 12), floorDiv(b, 12)) }},
 	// a valid order whose results are not normalised to -1/0/+1 (like a-b,
 	// but without overflow): only the sign carries meaning
-	{"natural-unnormalised", func(a, b int) int { return cmp.Compare(a, b) * magnitude(uint64(a)^uint64(b)) }},
+	{"natural-unnormalised", func(a, b int) int { return scale(cmp.Compare(a, b), uint64(a)^uint64(b)) }},
 }
 
 var strCmps = []NamedCmp[string]{
 	{"natural", func(a, b string) int { return strings.Compare(a, b) }},
 	{"reversed", func(a, b string) int { return strings.Compare(b, a) }},
 	{"caseless", func(a, b string) int { return strings.Compare(strings.ToLower(a), strings.ToLower(b)) }},
-	{"natural-unnormalised", func(a, b string) int { return strings.Compare(a, b) * magnitude(uint64(len(a)*31+len(b))) }},
+	{"natural-unnormalised", func(a, b string) int { return scale(strings.Compare(a, b), uint64(len(a)*31+len(b))) }},
 }
 
 // IntDom: alphabet values are spaced by 6 so that probes strictly between
 // neighbours exist; coarse12 makes pairs of neighbours compare equal.
 func IntDom(n int) *Dom[int] {
-	d := &Dom[int]{Name: "int", Cmps: intCmps, Fmt: func(v int) string { return fmt.Sprint(v) }}
+	d := &Dom[int]{Name: "int", Cmps: intCmps, Fmt: func(v int) string { return fmt.Sprint(v) }, Builtin: builtinFor[int]()}
 	for i := 0; i < n; i++ {
 		d.Alpha = append(d.Alpha, i*6)
 		d.Probe = append(d.Probe, i*6+3)
@@ -91,7 +110,7 @@ func IntDom(n int) *Dom[int] {
 var strAlphabet = []string{"", "a", "A", "ab", "b", "B", "k1", "\"k1\"", "a\"q", "a\\b", "<>&", "é", "1", "10", "0", "null", "a b", " ", "zz", "Zz", "{}", "[1]", "true"}
 
 func StrDom(n int) *Dom[string] {
-	d := &Dom[string]{Name: "string", Cmps: strCmps, Fmt: func(v string) string { return fmt.Sprintf("%q", v) }}
+	d := &Dom[string]{Name: "string", Cmps: strCmps, Fmt: func(v string) string { return fmt.Sprintf("%q", v) }, Builtin: builtinFor[string]()}
 	if n > len(strAlphabet) {
 		n = len(strAlphabet)
 	}
@@ -127,7 +146,7 @@ var jCmps = []NamedCmp[J]{
 	{"natural", jCmp},
 	{"reversed", func(a, b J) int { return jCmp(b, a) }},
 	{"by-N-only", func(a, b J) int { return cmp.Compare(a.N, b.N) }},
-	{"natural-unnormalised", func(a, b J) int { return jCmp(a, b) * magnitude(uint64(a.N)*31+uint64(len(a.Tag))+uint64(b.N)) }},
+	{"natural-unnormalised", func(a, b J) int { return scale(jCmp(a, b), uint64(a.N)*31+uint64(len(a.Tag))+uint64(b.N)) }},
 }
 
 // JDom: alphabet values alternate between an empty and a non-empty Tag.
@@ -176,13 +195,50 @@ func PDom() *Dom[*PS] {
 // FDom: float elements including NaN and the infinities (values encoding/json
 // refuses to encode; keys that are not equal to themselves).
 func FDom() *Dom[float64] {
-	d := &Dom[float64]{Name: "float", Fmt: func(v float64) string { return fmt.Sprint(v) }}
+	d := &Dom[float64]{Name: "float", Fmt: func(v float64) string { return fmt.Sprint(v) }, Builtin: builtinFor[float64]()}
 	fc := func(a, b float64) int { return cmp.Compare(a, b) }
 	d.Cmps = []NamedCmp[float64]{{"natural", fc}, {"reversed", func(a, b float64) int { return fc(b, a) }}, {"natural", fc}, {"natural", fc}}
 	d.Alpha = []float64{0, 1.5, math.NaN(), -2.25, math.Inf(1), math.Inf(-1), 1e300, 3}
 	d.Probe = []float64{0.5, math.NaN(), -1e-300}
 	d.Wide = func(r *core.R) float64 { return float64(r.Intn(1<<20)) / 8 }
 	return d
+}
+
+// identical is == made reflexive: a NaN is the same element as a NaN.
+func identical[T comparable](a, b T) bool { return a == b || (a != a && b != b) }
+
+// FKeyDom: float64 keys for the ordered containers. cmp.Compare is a strict
+// weak order on all floats (NaN is the least key and equal to itself, -0 and
+// +0 are one key), but Go's == is not reflexive on NaN, so anything that finds
+// "its" key again with == instead of the comparator loses it.
+func FKeyDom(n int) *Dom[float64] {
+	d := &Dom[float64]{Name: "float-key", Fmt: func(v float64) string { return fmt.Sprint(v) }, Builtin: builtinFor[float64]()}
+	fc := func(a, b float64) int { return cmp.Compare(a, b) }
+	d.Cmps = []NamedCmp[float64]{
+		{"natural", fc},
+		{"reversed", func(a, b float64) int { return fc(b, a) }},
+		{"coarse12", func(a, b float64) int { return fc(math.Floor(a/12), math.Floor(b/12)) }},
+		{"natural-unnormalised", func(a, b float64) int { return scale(fc(a, b), math.Float64bits(a)^math.Float64bits(b)) }},
+	}
+	d.Alpha = []float64{math.NaN(), math.Inf(-1), math.Inf(1), math.Copysign(0, -1)}
+	for i := 0; len(d.Alpha) < n+4; i++ {
+		d.Alpha = append(d.Alpha, float64(i*6))
+		d.Probe = append(d.Probe, float64(i*6+3))
+	}
+	d.Probe = append(d.Probe, -3, -1e300, 1e300, -100.5)
+	d.Wide = func(r *core.R) float64 { return float64(r.Intn(1<<20)) * 0.75 }
+	return d
+}
+
+// floatKey is ascending in the natural order: NaN, -Inf, then finite values.
+func floatKey(i int) float64 {
+	switch i {
+	case 0:
+		return math.NaN()
+	case 1:
+		return math.Inf(-1)
+	}
+	return float64(i-2) * 0.75
 }
 
 // SK is a struct element/key type (comparable, no natural order): generic
@@ -203,7 +259,7 @@ var skCmps = []NamedCmp[SK]{
 	{"natural", skCmp},
 	{"reversed", func(a, b SK) int { return skCmp(b, a) }},
 	{"by-A-only", func(a, b SK) int { return cmp.Compare(a.A, b.A) }}, // many ties between distinguishable keys
-	{"natural-unnormalised", func(a, b SK) int { return skCmp(a, b) * magnitude(uint64(a.A)^uint64(b.A)^uint64(len(a.B))) }},
+	{"natural-unnormalised", func(a, b SK) int { return scale(skCmp(a, b), uint64(a.A)^uint64(b.A)^uint64(len(a.B))) }},
 }
 
 // StructDom: n alphabet values {A: i/2*6, B: "x" or "y"}; probes lie between.
@@ -321,7 +377,18 @@ func countClass(k int) string {
 	}
 }
 
-func eqSlices[T comparable](a, b []T) bool { return slices.Equal(a, b) }
+// eqSlices: element-wise identity (a NaN is the same element as a NaN).
+func eqSlices[T comparable](a, b []T) bool {
+	if len(a) != len(b) {
+		return false
+	}
+	for i := range a {
+		if !identical(a[i], b[i]) {
+			return false
+		}
+	}
+	return true
+}
 
 // sameMultiset reports whether a and b hold the same elements with the same
 // multiplicities.
